@@ -77,6 +77,12 @@ def C06(tier, seed):
                  f"state after the edit and again after its undo (history-built states)")
              for a in (("UserAddNode", "UserDeleteNode", "UserDeleteEdge") if tier == "quick" else
                        ("UserAddNode", "UserDeleteNode", "UserAddEdge", "UserDeleteEdge"))]
+    # bounded ids (0..3): changes that use ids / times as dict keys (memo tables) can be followed
+    extra += [Run(f"step:{a}:N=2:queries_after_edit_and_undo:bounded_ids", step.harness,
+                  dict(N=2, action=a, props=["C06"], followup=False, query_after=True, bounded=3), step_replay.replay,
+                  ("accepted",), "2 node slots, every time / id / argument in 0..3; queries after the edit and after "
+                                 "its undo")
+              for a in (("UserAddNode",) if tier == "quick" else ("UserAddNode", "UserDeleteNode", "UserAddEdge"))]
     return _step("C06", tier, seed, R.USER, base=("construct", "query"), seg=_paint(tier), extra_runs=extra)
 
 
